@@ -29,6 +29,15 @@ impl FileSystemState {
             artifact_directory.to_path_buf(),
         ));
 
+        if state.nested_files.is_empty() {
+            // Nested artifacts recreate the artifact directory on the way to their own
+            // folder. If there are none (e.g. a project without client fields), it must be
+            // recreated explicitly, or the root files cannot be written.
+            operations.push(FileSystemOperation::CreateDirectory(
+                artifact_directory.to_path_buf(),
+            ));
+        }
+
         for (new_server_object_entity_name, new_selectable_map) in &state.nested_files {
             let new_server_object_path = artifact_directory.join(new_server_object_entity_name);
 
